@@ -5,6 +5,7 @@ import (
 	"errors"
 	"fmt"
 	"os"
+	"strings"
 
 	"github.com/cuteLittleDevil/go-jt808/protocol/jt1078"
 
@@ -77,6 +78,8 @@ func c17Stream(stream []byte, pks []ref.RTP, reuse ...bool) string {
 	}
 	// reuse[1]: read-loop presentation — the remaining data is copied to the START of one scratch buffer before every step, so
 	// that consecutive packets occupy the same memory (whatever the Packet remembers by reference sees the next packet's bytes)
+	var heldSim *string
+	var heldSimCopy string
 	var scratch []byte
 	if len(reuse) > 1 && reuse[1] {
 		scratch = make([]byte, len(stream))
@@ -93,6 +96,12 @@ func c17Stream(stream []byte, pks []ref.RTP, reuse ...bool) string {
 			p = shared
 		}
 		rem, err := p.Decode(in)
+		if shared != nil && heldSim != nil {
+			// what the previous step handed out (its SIM string, kept by the caller as a map key, say) is still what it was
+			if *heldSim != heldSimCopy {
+				return "held|a SIM string handed out by an earlier step changed when the Packet object decoded the next packet"
+			}
+		}
 		if !bytes.Equal(in, rest) {
 			return "mutated|Decode modified its input"
 		}
@@ -196,6 +205,10 @@ func c17Stream(stream []byte, pks []ref.RTP, reuse ...bool) string {
 		}()
 		if guardStr != "" {
 			return guardStr
+		}
+		if shared != nil {
+			hs := p.Sim
+			heldSim, heldSimCopy = &hs, strings.Clone(p.Sim)
 		}
 		rest = rest[total:]
 		step++
